@@ -1,17 +1,16 @@
 SPECIFICATION GSpec
 CONSTANTS
-  Keys <- W3Keys
-  Files <- W3Files
+  Keys <- W6Keys
+  Files <- W6Files
   DirsU = {}
-  Scripts <- W3Scripts
-  InitSrcs <- W3Srcs
+  Scripts <- W6Scripts
+  InitSrcs <- W6Srcs
   InitDirs = {}
   HasReloader = TRUE
   FixGoi = TRUE
   OrderFirst = TRUE
-  Ops <- W3Ops
+  Ops <- W6Ops
   N = 6
   Keep <- KeepAll
-INVARIANT FreshEntryNever
-PROPERTY RidStep
+INVARIANT Emit
 CHECK_DEADLOCK FALSE
